@@ -85,6 +85,9 @@ def rule_source(chk, prog):
                         why = "no success return found"
                     elif not all(any(f.dominates(q.bb, b) for (q, _) in good) for b in zero):
                         why = "a success return is reachable without sorting"
+                    elif not any(_after_end_of_enumeration(f, c, q) for (q, _) in good):
+                        why = "the sort can run before the host has handed out its last entry (the collecting loop ends for another " \
+                              "reason than the enumeration's end): what is sorted is a batch, the order of the batches is the host's"
                     else:
                         # same array: the strdup results are stored into the array handed to qsort
                         qb = [resolve_ptr(prog, _deref(q.ops[0]), f.unit)[:2] for (q, _) in good]
@@ -171,6 +174,17 @@ class _Sub:
 
     def violation(self, rule, inst, where, text):
         self.bad.append(text)
+
+
+def _after_end_of_enumeration(f, enum_call, sort_call):
+    """the sort is only reached over the edge on which the enumeration call answered NULL (no more entries)"""
+    res = [enum_call] + [u for u in f.uses.get(enum_call, []) if u.op in ("bitcast",)]
+    for cond, outcome, br in f.guards_at(sort_call.bb):
+        if cond.is_inst and cond.op == "icmp" and cond.pred in ("eq", "ne") and any(o.is_const and o.is_null for o in cond.ops):
+            x = [o for o in cond.ops if not o.is_const]
+            if x and (strip_casts(x[0]) in res or x[0] in res) and outcome == (cond.pred == "eq"):
+                return True
+    return False
 
 
 def _deref(v):
